@@ -103,8 +103,27 @@ CHECKS['C19'] = dict(
 NOT_YET = {}
 PENDING = set()   # harness exists, theorems in progress: not claimed until they check
 
+# properties whose theorems are also stated and proved for Lean definitions regenerated from the Python source
+TRANSLATED = {
+ 'C08': 'analyzers/apriori.py (propagation, evaluation, outer loop)',
+ 'C09': 'attackgraph.py (lookups, add_node, remove_node, add_attacker, remove_attacker), attacker.py',
+ 'C11': 'attacker.py and node.py (compromise, undo_compromise, is_compromised_by)',
+ 'C12': 'query.py (all functions) and the defense predicates of node.py',
+ 'C13': 'prune_unviable_and_unnecessary_nodes (apriori.py) with remove_node (attackgraph.py)',
+}
+
 def main():
     for k in PENDING: CHECKS.pop(k, None)
+    for k, what in TRANSLATED.items():
+        if k in CHECKS:
+            c = CHECKS[k]
+            c['text'] += (f' SECOND TIE: translators/py2lean.py regenerates Lean definitions from the current source of {what} on every run '
+                          f'(lean/MalVerif/Py/Gen); Py/Tie*.lean prove them equal to the hand-written model under the abstraction Py/Abs.lean and '
+                          f'PropsGen/{k}.lean restates the property theorems for the translated code; harness/tie.py compares the regenerated text with '
+                          f'the files lake checked and, if it differs, re-checks all dependent proofs in a scratch overlay (status in the evidence file).')
+            c['note'] += ('; translated code: trusted translator + Py/Prelude.lean conventions (DESIGN.md I.9); a broken or untranslatable second tie '
+                          'escalates the failing-input search and is reported as NOTE, the verdict then rests on the correspondence')
+            c['technique'] += ' + Python-to-Lean translation of the relevant functions, regenerated and re-checked on every run'
     props = [json.loads(l) for l in open(os.path.join(HERE, 'properties.jsonl'))]
     checks = []
     for p in props:
